@@ -64,6 +64,7 @@ def c_harness(info, msg_order, kinds, widths=None):
                    where J = j for the LAST integer member of a message and j/3 for the others - so on two
                    calls out of three only the last member of every message changes;
                    prints 'S j id dlc data' per transmitted frame and 'X' at the end
+      J <d> t...   as H, with the device value double-buffered: two struct instances passed in turns
       G 0 t...     the same, but EVERY device's scheduler is called (in device order) with each timestamp
     """
     out = ['#include <stdio.h>', '#include <stdlib.h>', '#include <string.h>', '#include <stdint.h>',
@@ -114,8 +115,10 @@ def c_harness(info, msg_order, kinds, widths=None):
                     mask = hist_mask(kinds[pascal][name], (widths or {}).get(pascal, {}).get(name, 64))
                     out.append("    dev->%s.%s = (%s)(((%s)*17 + %d*31 + %d*7) & 0x7f & %d);" % (mname, name, ctype, "j" if kidx == ints[-1] else "j/3", i, kidx, mask))
         out.append("    can_send_%s_msgs_scheduled(dev, t, cb); }" % d["sched"])
-        out.append("static void hist_%d(char **tok, int n){ CanDevice%s dev; memset(&dev,0,sizeof(dev));" % (di, dev))
-        out.append("  for (int j=0;j<n;j++){ uint32_t t=(uint32_t)strtoul(tok[j],NULL,10); step_%d(&dev, j, t); }" % di)
+        # alt != 0: the caller keeps its device value double-buffered and passes the two instances in turns (the
+        # schedule belongs to the device, not to the address of the struct it is described by)
+        out.append("static void hist_%d(char **tok, int n, int alt){ CanDevice%s dev[2]; memset(dev,0,sizeof(dev));" % (di, dev))
+        out.append("  for (int j=0;j<n;j++){ uint32_t t=(uint32_t)strtoul(tok[j],NULL,10); step_%d(&dev[alt ? (j & 1) : 0], j, t); }" % di)
         out.append("}")
     # G: every device of the program is called, in device order, with each timestamp (one process, as on
     # a node that hosts several logical devices)
@@ -137,9 +140,9 @@ def c_harness(info, msg_order, kinds, widths=None):
         out.append("        else { for(int i=0;i<8;i++){ unsigned b; sscanf(tok[2]+2*i,\"%2x\",&b); f.data[i]=(uint8_t)b; } f.dlc=8; }")
         out.append("        { CanMsg%s r = can_decode_msg_%s(&f); show_%d(&r); } break; }" % (pascal, m["snake"], mi))
     out.append("      default: printf(\"BAD\\n\"); } }")
-    out.append("    else if (tok[0][0]=='H') { fflush(stdout); pid_t pid=fork(); if(pid==0){ switch(idx){")
+    out.append("    else if (tok[0][0]=='H' || tok[0][0]=='J') { fflush(stdout); pid_t pid=fork(); if(pid==0){ switch(idx){")
     for di, dev in enumerate(devs):
-        out.append("      case %d: hist_%d(tok+2, c-2); break;" % (di, di))
+        out.append("      case %d: hist_%d(tok+2, c-2, tok[0][0]=='J'); break;" % (di, di))
     out.append("      default: printf(\"BAD\\n\"); } printf(\"X\\n\"); fflush(stdout); _exit(0); } int st=0; waitpid(pid,&st,0); if(!(WIFEXITED(st) && WEXITSTATUS(st)==0)) printf(\"CHILD-FAILED %d\\n\", st); }")
     out.append("    else if (tok[0][0]=='G') { fflush(stdout); pid_t pid=fork(); if(pid==0){ hist_all(tok+2, c-2); printf(\"X\\n\"); fflush(stdout); _exit(0); } int st=0; waitpid(pid,&st,0); if(!(WIFEXITED(st) && WEXITSTATUS(st)==0)) printf(\"CHILD-FAILED %d\\n\", st); }")
     out.append("    else printf(\"BAD\\n\"); fflush(stdout); }")
